@@ -21,6 +21,10 @@ Loop-state family: fills generated inside 1-3 nested loops between the tag and t
 tag inside 0-2 further loops; every fill prints its loop variables and the whole forloop / parentloop counter chain -
 the state of the enclosing loops *at the position of the fill* - against plain Python loops.
 
+Assign family: the binding between tag and fill is made by a tag that assigns into the current layer (`firstof .. as`,
+`cycle .. as .. silent`) - directly in the body, inside `{% if %}` / `{% for %}`, colliding with a page variable or an
+outer `with` - and must behave like the `with` spelling.
+
 Agnostic corners kept out of every verdict (DESIGN C03 i-vi): loop variables around a component
 tag (only `with` is used there); `with` between tag and fill in isolated mode when its name
 collides; fills of a component called with `only` in django mode; bindings around the slot are
@@ -373,7 +377,7 @@ def worker(w, W, payload):
 # ------------------------------------------------------------------ loop-state family
 # "fill content ... evaluates as it would at the position of the {% component %} tag, extended only by its enclosing
 # loops": the *state* of those loops (loop variable, forloop.counter, forloop.parentloop...counter) is part of that.
-# Fills are generated inside d_in nested loops written between the component tag and the fill (dynamic fill names),
+# Fills are generated inside d_in (0-3) nested loops written between the component tag and the fill (dynamic fill names),
 # the tag itself sits inside d_out loops; every fill prints the whole counter chain it sees.  The component's template
 # prints its slots in reverse order, optionally from inside a loop of its own, optionally the component is nested in
 # another component (deferred render).  Expected text is computed with plain Python loops.
@@ -382,9 +386,9 @@ LS_ITEMS = ("a", "b")
 
 def loopstate_cases(tier):
     thorough = tier == "thorough"
-    for d_in in (1, 2, 3):
-        for d_out in (0, 1, 2):
-            if d_in + d_out > (4 if thorough else 3):
+    for d_in in (0, 1, 2, 3):
+        for d_out in (0, 1, 2, 3):
+            if d_in + d_out > (4 if thorough else 3) or d_in + d_out == 0:
                 continue
             for with_between in (False, True):
                 for slot_in_loop in (False, True):
@@ -400,10 +404,12 @@ def loopstate_build(c):
     depth = d_in + d_out
     chain = "/".join("{{ forloop." + "parentloop." * k + "counter }}" for k in range(depth))
     names_in = ["i%d" % k for k in range(d_in)]
-    name_expr = names_in[0] + "".join("|add:" + n for n in names_in[1:])
-    body = "{% fill name=" + name_expr + " %}<" + "".join("{{ %s }}" % n for n in names_in) + ":" + chain + ("+{{ w }}" if c["with_between"] else "") + ">{% endfill %}"
+    # d_in == 0: one statically named fill directly in the body; it reads the state of the loops AROUND the tag only
+    name_expr = (names_in[0] + "".join("|add:" + n for n in names_in[1:])) if d_in else "'z'"
+    wsrc = names_in[-1] if d_in else "'z'"
+    body = "{% fill name=" + name_expr + " %}<" + ("".join("{{ %s }}" % n for n in names_in) or "z") + ":" + chain + ("+{{ w }}" if c["with_between"] else "") + ">{% endfill %}"
     if c["with_between"]:
-        body = "{% with w=" + names_in[-1] + " %}" + body + "{% endwith %}"
+        body = "{% with w=" + wsrc + " %}" + body + "{% endwith %}"
     for n in reversed(names_in):
         body = "{% for " + n + " in items %}" + body + "{% endfor %}"
     tag = "{% component 'ls_c' " + ("only " if c["only"] else "") + "%}" + body + "{% endcomponent %}"
@@ -413,7 +419,7 @@ def loopstate_build(c):
     for k in range(d_out):
         page = "{% for o" + str(k) + " in items %}" + page + "{% endfor %}"
     # component template: slots in reverse lexicographic order
-    slot_names = ["".join(t) for t in itertools.product(LS_ITEMS, repeat=d_in)]
+    slot_names = ["".join(t) for t in itertools.product(LS_ITEMS, repeat=d_in)] if d_in else ["z"]
     if c["slot_in_loop"]:
         tpl = "{% for sn in slot_names %}{% slot sn / %}{% endfor %}"
     else:
@@ -429,7 +435,7 @@ def loopstate_build(c):
     for idx_out in itertools.product(range(len(LS_ITEMS)), repeat=d_out):
         piece = []
         for name in reversed(slot_names):
-            idx_in = [LS_ITEMS.index(ch) for ch in name]
+            idx_in = [LS_ITEMS.index(ch) for ch in name] if d_in else []
             piece.append("<" + name + ":" + counters(idx_in, idx_out) + ("+" + name[-1] if c["with_between"] else "") + ">")
         txt = "".join(piece)
         out.append("(W" + txt + ")" if c["nested"] else txt)
@@ -443,7 +449,7 @@ def loopstate_run(c, mode):
     from django_components.component_registry import registry
 
     page, comps, want = loopstate_build(c)
-    slot_names = ["".join(t) for t in itertools.product(LS_ITEMS, repeat=c["d_in"])]
+    slot_names = ["".join(t) for t in itertools.product(LS_ITEMS, repeat=c["d_in"])] if c["d_in"] else ["z"]
 
     def gcd(self, **kw):
         return {"slot_names": list(reversed(slot_names))}
@@ -488,6 +494,73 @@ def loopstate_worker(w, W, payload):
     return agg
 
 
+# ------------------------------------------------------------------ assign family
+# Variables bound between the component tag and the fill by tags that ASSIGN into the current layer (`{% firstof .. as x %}`,
+# `{% cycle .. as x silent %}`) instead of pushing one (`{% with %}`): the fill must see them exactly like the `with` spelling.
+AS_KINDS = {"firstof_as": "{% firstof 'A' as x %}", "cycle_as": "{% cycle 'A' 'B' as x silent %}", "with": None}
+AS_WRAPS = {"direct": ("", ""), "in_if": ("{% if 1 %}", "{% endif %}"), "in_for": ("{% for q in one %}", "{% endfor %}")}
+AS_COLLIDE = (None, "page", "outer_with")
+
+
+def assign_cases():
+    for kind in AS_KINDS:
+        for wrap in AS_WRAPS:
+            for collide in AS_COLLIDE:
+                for nested in (False, True):
+                    yield {"kind": kind, "wrap": wrap, "collide": collide, "nested": nested}
+
+
+def assign_run(c, mode):
+    from django.template import Context, Template
+
+    from django_components import Component
+    from django_components.component_registry import registry
+
+    fill = "{% fill 's' %}[{{ x }}]{% endfill %}"
+    inner = ("{% with x='A' %}" + fill + "{% endwith %}") if c["kind"] == "with" else AS_KINDS[c["kind"]] + fill
+    pre, post = AS_WRAPS[c["wrap"]]
+    tag = "{% component 'as_c' %}" + pre + inner + post + "{% endcomponent %}"
+    if c["collide"] == "outer_with":
+        tag = "{% with x='W' %}" + tag + "{% endwith %}"
+    if c["nested"]:
+        tag = "{% component 'as_wrap' %}" + tag + "{% endcomponent %}"
+    want = "(W<[A]>)" if c["nested"] else "<[A]>"
+    comps = {"as_c": "<{% slot 's' / %}>", "as_wrap": "(W{% slot 'default' default / %})"}
+    for name, tpl in comps.items():
+        if name in registry.all():
+            registry.unregister(name)
+        registry.register(name, type("AS_" + name, (Component,), {"template": tpl, "__module__": "verif_c03"}))
+    ctx = {"one": [1]}
+    if c["collide"] == "page":
+        ctx["x"] = "P"
+    try:
+        got = ("ok", strip_markers(Template(tag).render(Context(ctx))))
+    except Exception as e:  # noqa
+        got = ("err", type(e).__name__, str(e)[:200])
+    boot.clear_render_registries()
+    for name in comps:
+        registry.unregister(name)
+    return tag, want, got
+
+
+def assign_task(mode):
+    boot.set_components_setting(context_behavior=mode)
+    agg = par.Agg()
+    for c in assign_cases():
+        agg.states += 1
+        agg.transitions += 1
+        tag, want, got = assign_run(c, mode)
+        agg.validated += 1
+        if c["kind"] != "with":
+            agg.nontrivial += 1
+        agg.expected[c["kind"]] += 1
+        agg.observe((c["kind"], got))
+        if got != ("ok", want):
+            agg.fail(f"{mode}:assign:{c['kind']}:{c['wrap']}" + (":collide=" + c["collide"] if c["collide"] else "") + (":nested" if c["nested"] else ""),
+                     f"[{mode}] page {tag!r}: expected {want!r}, got {got!r}", {"mode": mode, "family": "assign", "case": c, "page": tag})
+    return mode, agg
+
+
 def run(ctx):
     ev = ctx.ev
     ev.rule = ("scoping family page -> outer -> inner(slot): all assignments of the names {x,y} to 8 binding roles x kwargs passing x only flags x body kinds x "
@@ -505,6 +578,11 @@ def run(ctx):
                            "with_between": 2, "slot_in_loop": 2, "nested_in_component": 2, "only": 2, "items_per_loop": len(LS_ITEMS)},
                     samples=[{"page": loopstate_build({"d_in": 2, "d_out": 0, "with_between": False, "slot_in_loop": False, "nested": False, "only": False})[0]}])
         ctx.fnd.merge_reports(sorted(agg.failures, key=lambda f: (len(f[2].get("page", "")), f[0])))
+    for mode, agg in par.run_tasks(assign_task, ["django", "isolated"]):
+        ev.add_part(f"assign_between_{mode}", states=agg.states, transitions=agg.transitions, validated=agg.validated, nontrivial=agg.nontrivial,
+                    observed_distinct=len(agg.observed), expected=agg.expected,
+                    bound={"kinds": list(AS_KINDS), "wraps": list(AS_WRAPS), "collisions": [str(x) for x in AS_COLLIDE], "nested": 2})
+        ctx.fnd.merge_reports(sorted(agg.failures, key=lambda f: (len(f[2].get("page", "")), f[0])))
     boot.set_components_setting(context_behavior="django")
     ev.assumptions = ["the six agnostic corners of DESIGN C03 are kept out of the generator", "two names, one slot, nesting depth 2-3"]
 
@@ -512,6 +590,12 @@ def run(ctx):
 def replay(ctx, case):
     mode = case["mode"]
     boot.set_components_setting(context_behavior=mode)
+    if case.get("family") == "assign":
+        tag, want, got = assign_run(case["case"], mode)
+        print("page:    ", tag)
+        print("expected:", want)
+        print("observed:", got)
+        return got == ("ok", want)
     if case.get("family") == "loopstate":
         page, comps, want, got = loopstate_run(case["case"], mode)
         print("page:    ", page)
